@@ -43,3 +43,6 @@ def run(ctx):
             ctx.fail(r["fail"], "reconnect monitor '%s' failed: %s" % (r["fail"], str(r.get("info"))[:400]), case=r)
     hdr = ("From Coq Require Import List NArith ZArith String.\nFrom WV Require Import Base.Hex.\nImport ListNotations.\nOpen Scope Z_scope.")
     ctx.model("Run.RunC06", recs, header=hdr)
+    # the session is lost in the gap between READY and the loop's wait for the loss (gate-held, real sockets)
+    import props.C09 as c09
+    c09.run(ctx, test="^TestVerifC06Gap$", name="C06-gap")
